@@ -192,3 +192,83 @@ def condition_chain(root, stmt):
         return False
     rec(root, [])
     return path[0] if path else None
+
+
+def loop_leaks(fn, loop, cfg):
+    """names whose value can leak from one iteration of `loop` to the next: assigned somewhere in the body, read in the body, and on
+    some path from the start of an iteration to such a read no assignment of the body is passed (so the read sees the value of an
+    earlier iteration, or the one from before the loop).  Loop targets and names only read are not candidates.
+    Returns [(name, read node, ast of the first conditional assignment)]"""
+    body_nodes = set()
+    for st in loop.body:
+        for x in ast.walk(st):
+            body_nodes.add(id(x))
+    targets = {x.id for x in ast.walk(loop.target) if isinstance(x, ast.Name)}
+    assigned = {}
+    for st in loop.body:
+        for x in ast.walk(st):
+            if isinstance(x, ast.Name) and isinstance(x.ctx, ast.Store) and x.id not in targets:
+                assigned.setdefault(x.id, []).append(x)
+            if isinstance(x, (ast.For, ast.comprehension)):
+                for y in ast.walk(x.target):
+                    if isinstance(y, ast.Name):
+                        targets.add(y.id)
+    head = [n for n in cfg.nodes() if cfg.data(n)["kind"] == "loop" and cfg.data(n)["ast"] is loop]
+    if not head:
+        return []
+    head = head[0]
+    out = []
+    aug_only, self_ref, plain = set(), set(), set()
+    for st in loop.body:
+        for x in ast.walk(st):
+            if isinstance(x, ast.AugAssign) and isinstance(x.target, ast.Name):
+                aug_only.add(x.target.id)
+    for st in loop.body:
+        for x in ast.walk(st):
+            if isinstance(x, ast.Assign):
+                reads = {y.id for y in ast.walk(x.value) if isinstance(y, ast.Name)}
+                for t in x.targets:
+                    for y in ast.walk(t):
+                        if isinstance(y, ast.Name):
+                            if y.id in reads:
+                                self_ref.add(y.id)      # x = f(x, ...): accumulation
+                            else:
+                                plain.add(y.id)
+    aug_only = (aug_only | self_ref) - plain
+    for name in sorted(assigned):
+        if name in targets or name in aug_only:
+            continue            # loop variables; counters/accumulators written with += only are carried on purpose
+        defs = [n for n in cfg.nodes() if cfg.data(n).get("ast") is not None and cfg.data(n)["kind"] in ("stmt", "loop") and
+                any(isinstance(x, ast.Name) and x.id == name and isinstance(x.ctx, ast.Store) and id(x) in body_nodes
+                    for x in (ast.walk(cfg.data(n)["ast"]) if cfg.data(n)["kind"] == "stmt" else
+                              (ast.walk(cfg.data(n)["ast"].target) if isinstance(cfg.data(n)["ast"], ast.For) else [])))]
+        # AugAssign counts as a read-modify-write: a use first
+        uses = []
+        for n in cfg.nodes():
+            d = cfg.data(n)
+            a = d.get("ast")
+            if a is None or d["kind"] not in ("stmt", "test"):
+                continue
+            exprs = d.get("expr") or []
+            reads = False
+            for e in exprs:
+                for x in ast.walk(e):
+                    if isinstance(x, ast.Name) and x.id == name and isinstance(x.ctx, ast.Load) and id(x) in body_nodes:
+                        reads = True
+            if isinstance(a, ast.AugAssign) and isinstance(a.target, ast.Name) and a.target.id == name and id(a) in body_nodes:
+                reads = True
+            if reads:
+                uses.append(n)
+        for u in uses:
+            through = [d_ for d_ in defs if d_ != u or not isinstance(cfg.data(u)["ast"], ast.AugAssign)]
+            succ = cfg.succ_label(head, "true") or list(cfg.g.successors(head))
+            leak = False
+            for s0 in succ:
+                if s0 == u or cfg.path(s0, u, avoid=[x for x in through if x != u] + [head]) is not None:
+                    if s0 in through and s0 != u:
+                        continue
+                    leak = True
+            if leak:
+                out.append((name, u, assigned[name][0]))
+                break
+    return out
